@@ -118,6 +118,10 @@ func init() {
 			}
 			return nil
 		},
+		"RaceMonitor": func(fr *frame, a []value) value {
+			fr.i.race = newRaceState(fr.i.concString(a[0]))
+			return nil
+		},
 		"Or":  func(fr *frame, a []value) value { return fr.i.orV(a[0], a[1]) },
 		"And": func(fr *frame, a []value) value { return fr.i.andV(a[0], a[1]) },
 		"PickStr": func(fr *frame, a []value) value {
